@@ -1200,11 +1200,12 @@ class PerturbedDroplet3D(PerturbedDropletBase):
 
     @property
     def volume_approx(self) -> float:
-        """float: approximate volume to linear order in the perturbation"""
-        volume = spherical.volume_from_radius(self.radius, 3)
-        if len(self.amplitudes) > 0:
-            volume += self.amplitudes[0] * 2 * np.sqrt(np.pi) * self.radius**2
-        return volume
+        """float: approximate volume to linear order in the perturbation
+
+        The zero-th mode is not part of `amplitudes` and all spherical harmonics of
+        higher degree integrate to zero, so there is no linear correction.
+        """
+        return spherical.volume_from_radius(self.radius, 3)
 
 
 class PerturbedDroplet3DAxisSym(PerturbedDropletBase):
@@ -1274,11 +1275,12 @@ class PerturbedDroplet3DAxisSym(PerturbedDropletBase):
 
     @property
     def volume_approx(self) -> float:
-        """float: approximate volume to linear order in the perturbation"""
-        volume = spherical.volume_from_radius(self.radius, 3)
-        if len(self.amplitudes) > 0:
-            volume += self.amplitudes[0] * 2 * np.sqrt(np.pi) * self.radius**2
-        return volume
+        """float: approximate volume to linear order in the perturbation
+
+        The zero-th mode is not part of `amplitudes` and all spherical harmonics of
+        higher degree integrate to zero, so there is no linear correction.
+        """
+        return spherical.volume_from_radius(self.radius, 3)
 
 
 def droplet_from_data(droplet_class: str, data: np.ndarray) -> DropletBase:
